@@ -1,7 +1,7 @@
 #!/bin/bash
 # verify + try round-2 seeds, serially; log to /tmp/seed2-results/<id>.log
-mkdir -p /tmp/seed2-results
+R=${R:-2}; export R; mkdir -p /tmp/seed$R-results
 for id in "$@"; do
-  { echo "######## $id"; tools/verify_seed2.sh $id; echo "== checks on /repo with the patch"; tools/try_seed.sh /tmp/seed2-$id/patch.diff $id; } > /tmp/seed2-results/$id.log 2>&1
+  { echo "######## $id"; tools/verify_seed2.sh $id; echo "== checks on /repo with the patch"; tools/try_seed.sh /tmp/seed$R-$id/patch.diff $id; } > /tmp/seed$R-results/$id.log 2>&1
 done
 echo ALLDONE
